@@ -39,6 +39,16 @@ extern "C"
     // partial derivative of a symbolic term with respect to the symbol called `name` (symbolic differentiation of the
     // term DAG; ite conditions are kept). Replay build: central finite difference is NOT available -> returns NaN.
     double sym_deriv(double a, const char* name);
+    // derivative obligation: d(value)/d(symbol `name`) == grad, asserted only at GENERIC points, i.e. where every
+    // comparison of the path condition and every ite-condition inside the two terms holds strictly (lhs != rhs):
+    // that is the set where the piecewise definition is differentiable. Replay build: central finite difference check
+    // is done by the harness itself (this call only records the label).
+    void sym_check_deriv(double value, const char* name, double grad, const char* label);
+    // number of transcendental-function applications (exp, log, ...) created on this path: their values are
+    // over-approximated (ackermannised), so inequalities about them are not decidable and harnesses skip those
+    int sym_uf_count(void);
+    // 1 when running concretely (replay / validation: IEEE doubles, no symbols), 0 when running symbolically
+    int sym_concrete(void);
     // the harness body, run once per path
     void sym_body(void);
     // configuration string given on the command line (argv[1]) or ""
